@@ -406,9 +406,13 @@ fn gen_xy(src: &mut Src, o: &GdsGenOpts, big: &mut bool) -> Vec<(i32, i32)> {
     }
     let n = src.weighted(&[1, 1, 2, 2, 3, 3, 2, 1, 1, 1, 1, 1, 1]);
     let mut v: Vec<(i32, i32)> = (0..n).map(|_| gen_pt(src)).collect();
-    // the same point twice in a row is data like any other (a doubled vertex)
-    if n >= 1 && src.prob(1, 8) {
-        let i = src.index(n);
+    // an outline that ends on its first point (boundaries are stored closed)
+    if n >= 2 && src.prob(1, 5) {
+        v.push(v[0]);
+    }
+    // the same point twice in a row is data like any other (a doubled vertex, the closing one included)
+    if !v.is_empty() && src.prob(1, 8) {
+        let i = if src.prob(1, 3) { v.len() - 1 } else { src.index(v.len()) };
         v.insert(i, v[i]);
     }
     v
@@ -435,16 +439,34 @@ pub fn gen_elem(src: &mut Src, o: &GdsGenOpts, big: &mut bool) -> MElem {
             strans: opt(src, gen_strans),
             c: gen_common(src, o),
         },
-        2 => MElem::Path {
-            layer: gen_i16(src),
-            datatype: gen_i16(src),
-            xy: gen_xy(src, o, big),
-            path_type: opt(src, gen_i16),
-            width: opt(src, gen_i32),
-            begin_extn: opt(src, gen_i32),
-            end_extn: opt(src, gen_i32),
-            c: gen_common(src, o),
-        },
+        2 => {
+            let mut path_type = opt(src, gen_i16);
+            let mut width = opt(src, gen_i32);
+            let mut begin_extn = opt(src, gen_i32);
+            let mut end_extn = opt(src, gen_i32);
+            // the end styles the format defines, and the relations a real path has between its fields: equal
+            // extensions, extensions of zero or of half the width
+            if src.prob(1, 3) {
+                path_type = Some(*src.pick(&[0i16, 1, 2, 4, 4]));
+            }
+            if src.prob(1, 4) {
+                let w = 2 * src.i64_in(0, 500) as i32;
+                width = Some(w);
+                match src.below(4) {
+                    0 => {
+                        begin_extn = Some(w / 2);
+                        end_extn = Some(w / 2);
+                    }
+                    1 => {
+                        begin_extn = Some(0);
+                        end_extn = Some(0);
+                    }
+                    2 => end_extn = begin_extn,
+                    _ => begin_extn = Some(w),
+                }
+            }
+            MElem::Path { layer: gen_i16(src), datatype: gen_i16(src), xy: gen_xy(src, o, big), path_type, width, begin_extn, end_extn, c: gen_common(src, o) }
+        }
         3 => MElem::Sref { name: gen_string(src, o), xy: gen_pt(src), strans: opt(src, gen_strans), c: gen_common(src, o) },
         4 => {
             let mut cols = gen_i16(src);
